@@ -58,11 +58,21 @@ Record limiter := mkLimiter {
   l_hard_int : Z    (* minGCIntervalWhenHardLimited *)
 }.
 
-(* NewMemoryLimiter *)
+(* NewMemoryLimiter: the fields CheckMemLimits reads *)
 Definition new_limiter (c : config) (total : option Z) : option limiter :=
   match get_checker c total with
   | None => None
   | Some (lim, spike) => Some (mkLimiter lim spike (c_soft_int c) (c_hard_int c))
+  end.
+
+(* NewMemoryLimiter, complete outcome: it does not call Validate; after a successful
+   getMemUsageChecker it evaluates time.NewTicker(cfg.CheckInterval), which panics for a
+   non-positive interval ("non-positive interval for NewTicker"). *)
+Inductive new_result := NewErr | NewPanic | NewOk (l : limiter).
+Definition new_outcome (c : config) (total : option Z) : new_result :=
+  match new_limiter c total with
+  | None => NewErr
+  | Some l => if c_check c <=? 0 then NewPanic else NewOk l
   end.
 
 Definition above_soft (l : limiter) (alloc : Z) : bool := aboveSoftLimit alloc (l_limit l) (l_spike l).
